@@ -21,6 +21,9 @@ ASSUMPTIONS = [
 def check(ctx):
     prog = ctx.prog("posix-mt")
     R.c06_targets(ctx, prog)
+    # signals and reaps come from the process that started the child only: the failed child of a start never runs the application's
+    # exit handlers (which may stop other handles)
+    child_exit_rule(ctx, prog, "C06.K5")
     # K3: running => pid is the positive fork result of an unreaped child, on every path of start
     SP.fork_run(ctx, prog)
     SP.verify_start_summary(ctx, prog)
